@@ -91,3 +91,44 @@ def schedule(rng, length=None):
                 f = rng.choice([F.hello(m, g, m, m), F.query(m, OWN, xid), F.raw(rng.choice([0, 1, 2]), rng.randrange(256), OWN, m, OWN, m, xid)])
             ops.append('ev 0 %s avail=%d tbl=%s' % (f, len(f) // 2 + rng.choice([0, 0, 6, 700]), rng.choice(['0', '0', '0', '-'])))
     return ops
+
+
+def _remap(op):
+    """the same operation on the second responder's objects (automata 3/4/5, table 1)"""
+    w = op.split()
+    if w[0] == 'fsm':
+        w[2] = str(int(w[2]) + 3)
+    elif w[0] == 'tbl':
+        w[2] = '1'
+    elif w[0] == 'map':
+        w[2] = '3'
+    elif w[0] == 'band':
+        w[2] = '4'
+    elif w[0] == 'tick':
+        w[1] = '3' if w[1] != '-' else '-'
+        w[2] = '4' if w[2] != '-' else '-'
+        w[3] = '1' if w[3] != '-' else '-'
+    elif w[0] == 'ev':
+        w[-1] = 'tbl=1' if w[-1] == 'tbl=0' else w[-1]
+    return ' '.join(w)
+
+
+def schedule2(rng):
+    """two responders (two interfaces of one daemon: each with its own three automata and session table) in ONE process,
+    their schedules interleaved on the shared clock — in particular both ticked within the same second, in a stable order.
+    Nothing one of them does may show in the other."""
+    a = schedule(rng, length=rng.randint(15, 120))
+    b = [_remap(o) for o in schedule(rng, length=rng.randint(15, 120))]
+    head = a[:6] + [o for o in b[1:5]]            # one interface line, one initial clock
+    a, b = a[6:], b[6:]
+    out = list(head)
+    paired = rng.random() < 0.7
+    while a or b:
+        src = a if (a and (not b or rng.random() < 0.5)) else b
+        o = src.pop(0)
+        out.append(o)
+        if paired and o.startswith('tick '):
+            # the daemon's timer serves every interface in turn, at the same clock reading
+            other = 'tick 3 4 1 wired' if src is a else 'tick 0 1 0 wired'
+            out.append(other)
+    return out
